@@ -185,6 +185,8 @@ func checkC11(c *Ctx) Meta {
 	checkTransitions(c, pkgCapacity, "capacity")
 	checkTransitions(c, pkgSkchia, "skchia")
 	c09TransRule = "C09-TRANS"
+	c.Rule("C11-STATE", "ready or registered is derived from the recorded progress: OpenDB treats a space as unfinished exactly when map B's checkpoint says so (not from the presence of companion files)", 1)
+	checkMapALoadedByProgressOnly(c, "C11-STATE")
 	c.Rule("C11-HEADER", "on the open path a comparison guarding success relates data read from the file header (HashMap.pk/pkHash/bl) to the requested key and bit length (non-vacuous header-vs-name check); loadHashMap validates file code, version, key hash and map type", 7)
 
 	// ---- WMC
